@@ -48,7 +48,7 @@ func init() {
 }
 
 func c04Generate(c *mon.Ctx) {
-	concBatches(c, c.N(6, 300), func(seed uint64) any { return &c04Case{Conc: seed} })
+	concBatches(c, c.NConc(6, 300), func(seed uint64) any { return &c04Case{Conc: seed} })
 
 	pool := gen.NewPool(c.SharedRng("pool"), 16)
 
@@ -133,7 +133,7 @@ func c04Generate(c *mon.Ctx) {
 	})
 
 	// and again at the end of the shard, when the process has a history behind it
-	concBatches(c, c.N(4, 200), func(seed uint64) any { return &c04Case{Conc: seed + 50000} })
+	concBatches(c, c.NConc(4, 200), func(seed uint64) any { return &c04Case{Conc: seed + 50000} })
 }
 
 func c04Run(c *mon.Ctx, csAny any) {
